@@ -296,6 +296,39 @@ func (MonC14) State(x *Exec) *Violation {
 				return viol(fmt.Sprintf("%s stopped after %d of %d elements", what, stop, len(full)), PairsString(u, full[:stop]), PairsString(u, got))
 			}
 		}
+		// nested passes over the same sequence value (an all-pairs loop): an inner pass, complete or
+		// abandoned, started from inside the outer pass must not disturb either of them
+		if len(full) >= 2 {
+			for _, abandon := range []bool{false, true} {
+				var outer, inner []Pair
+				p := safely(func() {
+					seq(func(pr Pair) bool {
+						outer = append(outer, pr)
+						if len(outer) == 1 {
+							seq(func(in Pair) bool {
+								inner = append(inner, in)
+								return !abandon
+							})
+						}
+						return true
+					})
+				})
+				x.Stats.Evaluations++
+				wi := full
+				if abandon {
+					wi = full[:1]
+				}
+				if p != "" {
+					return viol(what+", a pass nested inside another pass over the same sequence value", PairsString(u, full), "panic: "+p)
+				}
+				if !PairsEqual(inner, wi) {
+					return viol(what+", inner pass started inside an outer pass over the same sequence value", PairsString(u, wi), PairsString(u, inner))
+				}
+				if !PairsEqual(outer, full) {
+					return viol(what+", outer pass after an inner pass over the same sequence value", PairsString(u, full), PairsString(u, outer))
+				}
+			}
+		}
 		for pass := 2; pass <= 3; pass++ {
 			var again []Pair
 			p := safely(func() { again = Collect(seq) })
